@@ -416,16 +416,33 @@ def may_raise_functions(repo):
                 continue
             for n in walk_no_nested(fi.node):
                 if isinstance(n, ast.Call) and isinstance(n.func, ast.Attribute) and dotted(n.func.value) == "self" and n.func.attr in direct:
+                    if n.func.attr == "set_type" and set_type_literal_ok(n, repo):
+                        continue  # set_type with a literal addable type has no rejecting path
                     direct.add(m)
                     changed = True
                     break
     return direct
 
 
+def _enum_constant(expr, repo):
+    """`<EnumClass>.<MEMBER>.value` (or `<EnumClass>.<MEMBER>` of a str-valued enum) for an Enum class circuit.py defines -> the literal."""
+    if isinstance(expr, ast.Attribute) and expr.attr == "value":
+        expr = expr.value
+    if isinstance(expr, ast.Attribute) and isinstance(expr.value, ast.Name):
+        for st in repo.tree[FILE].body:
+            if isinstance(st, ast.ClassDef) and st.name == expr.value.id and any(norm(b_).split(".")[-1] in ("Enum", "StrEnum") for b_ in st.bases):
+                for x in st.body:
+                    if isinstance(x, ast.Assign) and len(x.targets) == 1 and isinstance(x.targets[0], ast.Name) and x.targets[0].id == expr.attr and isinstance(x.value, ast.Constant):
+                        return x.value.value
+    return None
+
+
 def set_type_literal_ok(call, repo):
     voc = type_vocabulary(repo)
     a = kwarg(call, "t", 1)
-    return isinstance(a, ast.Constant) and a.value in voc["addable_types"]
+    if isinstance(a, ast.Constant):
+        return a.value in voc["addable_types"]
+    return a is not None and _enum_constant(a, repo) in voc["addable_types"]
 
 
 class Order:
@@ -469,8 +486,6 @@ class Order:
 
     @staticmethod
     def is_rollback(tr):
-        if tr.orelse:
-            return False
         for h in tr.handlers:
             names = [norm(x).split(".")[-1] for x in (h.type.elts if isinstance(h.type, ast.Tuple) else [h.type])] if h.type is not None else ["BaseException"]
             if not ({"ValueError", "Exception", "BaseException"} & set(names)):
@@ -480,6 +495,53 @@ class Order:
             reraises = bool(h.body) and isinstance(h.body[-1], ast.Raise) and h.body[-1].exc is None
             if removes and reraises:
                 return True
+        return False
+
+    def is_rollback_manager(self, expr):
+        if not (isinstance(expr, ast.Call) and isinstance(expr.func, (ast.Attribute, ast.Name))):
+            return False
+        name = expr.func.attr if isinstance(expr.func, ast.Attribute) else expr.func.id
+        if isinstance(expr.func, ast.Attribute) and dotted(expr.func.value) != "self":
+            return False
+        # a class used as the manager: its __exit__ removes the nodes and does not suppress the exception
+        if isinstance(expr.func, ast.Name):
+            ex = self.repo.funcs.get((FILE, f"{name}.__exit__"))
+            if ex is not None:
+                removes = any(isinstance(n, ast.Call) and isinstance(n.func, ast.Attribute) and n.func.attr in ("remove_node", "remove_nodes_from") and (dotted(n.func.value) or "").split(".")[-1] == "graph"
+                              for n in ast.walk(ex.node))
+                suppresses = any(isinstance(r, ast.Return) and not (r.value is None or (isinstance(r.value, ast.Constant) and not r.value.value)) for r in ast.walk(ex.node))
+                if removes and not suppresses:
+                    return True
+        cands = [fi for (rel, q), fi in self.repo.funcs.items() if rel == FILE and q in (f"Circuit.{name}", name)]
+        for fi in cands:
+            if not any(norm(d).split(".")[-1] == "contextmanager" for d in fi.node.decorator_list):
+                continue
+            for tr in ast.walk(fi.node):
+                if isinstance(tr, ast.Try) and any(isinstance(x, (ast.Yield, ast.YieldFrom)) for b_ in tr.body for x in ast.walk(b_)) and self.is_rollback(tr):
+                    return True
+        return False
+
+    @staticmethod
+    def _removes(body):
+        return any(isinstance(n, ast.Call) and isinstance(n.func, ast.Attribute) and ((dotted(n.func.value) == "self.graph" and n.func.attr in ("remove_node", "remove_nodes_from")) or (dotted(n.func.value) == "self" and n.func.attr == "remove"))
+                   for x in body for n in ast.walk(x))
+
+    def is_rollback_stack(self, st):
+        """`with ExitStack() as stack: stack.push(undo); <wire>` where the local function `undo(exc_type, exc, tb)` removes the nodes this
+        call created and does not suppress the exception."""
+        for item in st.items:
+            ce = item.context_expr
+            if not (isinstance(ce, ast.Call) and norm(ce.func).split(".")[-1] == "ExitStack" and isinstance(item.optional_vars, ast.Name)):
+                continue
+            var = item.optional_vars.id
+            for x in st.body:
+                for n in ast.walk(x):
+                    if isinstance(n, ast.Call) and isinstance(n.func, ast.Attribute) and n.func.attr == "push" and dotted(n.func.value) == var and n.args and isinstance(n.args[0], ast.Name):
+                        for d in ast.walk(self.fi.node):
+                            if isinstance(d, ast.FunctionDef) and d.name == n.args[0].id and self._removes(d.body):
+                                suppresses = any(isinstance(r, ast.Return) and not (r.value is None or (isinstance(r.value, ast.Constant) and not r.value.value)) for r in ast.walk(d))
+                                if not suppresses:
+                                    return True
         return False
 
     def walk(self, stmts, dirty):
@@ -506,6 +568,7 @@ class Order:
                     dirty = self.walk(st.body, False) or dirty
                     self.found = keep
                     self.rollbacks = getattr(self, "rollbacks", 0) + 1
+                    dirty = self.walk(st.orelse, dirty)  # runs only when the body was not rejected
                     dirty = self.walk(st.finalbody, dirty)
                     continue
                 dirty = self.walk(st.body, dirty)
@@ -514,6 +577,15 @@ class Order:
                 dirty = self.walk(st.finalbody, dirty)
                 continue
             if isinstance(st, ast.With):
+                if any(self.is_rollback_manager(item.context_expr) for item in st.items) or self.is_rollback_stack(st):
+                    # the same idiom behind a context manager: `with self._undo_on_reject(nodes): <wire>` where the manager is a
+                    # @contextmanager generator `try: yield  except ValueError: <remove the nodes>; raise`
+                    keep = self.found
+                    self.found = []
+                    dirty = self.walk(st.body, False) or dirty
+                    self.found = keep
+                    self.rollbacks = getattr(self, "rollbacks", 0) + 1
+                    continue
                 dirty = self.walk(st.body, dirty)
                 continue
             adds, raises = self.classify(st)
@@ -627,3 +699,6 @@ def run(chk):
 
 
     short_histories_rule(chk, "C07.X.short-histories", 2 if chk.tier == "quick" else 3)
+    from ..explore import uid_histories_rule
+
+    uid_histories_rule(chk, "C07.U.uid-histories", 4 if chk.tier == "quick" else 5)
